@@ -12,6 +12,9 @@ package main
 //   race    the processor matrix under the race-instrumented binary with several seeds
 //   grow    journals over hundreds of days in which accounts, commodities, positions and prices keep appearing × random
 //           combinations of the report flags on balance and register, under the race detector and on the normal binary
+//   dust    (c19race.go) journals whose portfolio lives on the 8-digit truncation of values (fractional lots at prices with up
+//           to 8 decimals, positions closed leaving residues, multi-file) × portfolio weights / returns with every interval and
+//           the other pipeline commands; every race job of every stream also runs the race binary with the hooks OFF
 //   loader  include trees (valid, with errors): census of `knut print` vs the model, no-loss/no-dup monitor,
 //           error trees must fail and never hang
 
@@ -647,9 +650,10 @@ type genJournal struct {
 	Days   int    // distinct dates
 	Fault  string // "", "noprice", "unopened", "assert"
 	MinDay string
-	Span   int      // grow stream: last day (offset from 2020-01-01)
-	Coms   []string // grow stream: the foreign commodities
-	Groups []string // grow stream: second-level account segments
+	Span   int               // grow stream: last day (offset from 2020-01-01)
+	Coms   []string          // grow stream: the foreign commodities
+	Groups []string          // grow stream: second-level account segments
+	Files  map[string]string // dust stream: further files next to journal.knut (relative path -> content) which Text includes
 }
 
 var c19Accounts = []string{"Assets:Bank", "Assets:Portfolio", "Assets:Cash:Wallet", "Liabilities:Card", "Expenses:Food", "Expenses:Rent:Flat", "Income:Salary", "Equity:Equity", "Assets:Accrued", "Expenses:Insurance"}
@@ -863,6 +867,7 @@ type procJob struct {
 	Race    bool
 	Long    bool // long journal: three times the usual watchdog timeouts
 	base    procResult
+	plain   []procResult // race jobs: runs of the race binary WITHOUT the scheduling / trace hooks (see c19RunProcJobs)
 	runs    []procResult
 	traces  []string
 	journal string
@@ -876,15 +881,39 @@ func (c *Ctx) c19RunProcJobs(jobs []*procJob) {
 		jb := jobs[i]
 		jd := filepath.Join(dir, fmt.Sprintf("%s%d", jb.Stream, jb.Index))
 		os.MkdirAll(jd, 0o755)
-		defer os.RemoveAll(jd)
+		if os.Getenv("C19_KEEP") == "" { // development aid: keep the journals
+			defer os.RemoveAll(jd)
+		}
 		path := filepath.Join(jd, "journal.knut")
 		os.WriteFile(path, []byte(jb.J.Text), 0o644)
+		for rel, text := range jb.J.Files {
+			os.MkdirAll(filepath.Dir(filepath.Join(jd, rel)), 0o755)
+			os.WriteFile(filepath.Join(jd, rel), []byte(text), 0o644)
+		}
 		args := append(append([]string{}, jb.Cmd.Args...), path)
 		scale := time.Duration(1)
 		if jb.Long {
 			scale = 3
 		}
 		jb.base = runProc(scale*10*time.Second, jd, nil, c.KnutBin, args...)
+		if jb.Race && !jb.base.Timeout {
+			// The hooks behind KNUT_VERIF_SEED / KNUT_VERIF_TRACE take one global mutex at every push, pop, begin and end of every
+			// stage. For the race detector each lock is a synchronisation: whatever stage k+1 does to day n before it logs `end`
+			// happens-before everything stage k does after a later log event, so an access of a LATER stage to what an EARLIER
+			// stage still uses is ordered by the instrumentation itself in most schedules and is not reported. The race binary
+			// therefore also runs on the program's own synchronisation only (the rendezvous of cpr.Seq): hooks off.
+			nplain := 1
+			if jb.Stream == "dust" {
+				nplain = 2
+			}
+			for k := 0; k < nplain; k++ {
+				pr := runProc(scale*40*time.Second, jd, []string{"KNUT_VERIF_SEED=", "KNUT_VERIF_TRACE=", "GORACE=halt_on_error=1 exitcode=66"}, raceBin, args...)
+				jb.plain = append(jb.plain, pr)
+				if pr.Timeout {
+					break
+				}
+			}
+		}
 		for _, s := range jb.Seeds {
 			if jb.base.Timeout || (len(jb.runs) > 0 && jb.runs[len(jb.runs)-1].Timeout) {
 				break // one hang is enough: do not wait for the timeout again and again
@@ -908,6 +937,9 @@ func (c *Ctx) c19CheckProcJob(bt *Batch, jb *procJob) {
 	stream, i := jb.Stream, jb.Index
 	c.Evals++
 	in := map[string]any{"argv": jb.Cmd.Args, "journal": jb.J.Text, "fault": jb.J.Fault, "race": jb.Race}
+	if len(jb.J.Files) > 0 {
+		in["files"] = jb.J.Files
+	}
 	stripPath := func(s string) string {
 		return regexp.MustCompile(`/[^\s:"]*journal\.knut`).ReplaceAllString(s, "journal.knut")
 	}
@@ -921,9 +953,28 @@ func (c *Ctx) c19CheckProcJob(bt *Batch, jb *procJob) {
 	// outcome model of the command: a journal with a fault in a stage makes the command fail, otherwise it succeeds
 	c.Compare(stream, i, "exit-status", in, fmt.Sprintf("fail=%v", base.Exit != 0), fmt.Sprintf("fail=%v", expectFail))
 	c.Class(fmt.Sprintf("%s/%s/%s/fault-%s", stream, jb.Cmd.Name, strings.Join(jb.Cmd.Args[1:], " "), jb.J.Fault))
+	for _, pr := range jb.plain {
+		in2 := map[string]any{"argv": jb.Cmd.Args, "journal": jb.J.Text, "fault": jb.J.Fault, "race": jb.Race, "hooks": "off", "GORACE": "halt_on_error=1 exitcode=66"}
+		if len(jb.J.Files) > 0 {
+			in2["files"] = jb.J.Files
+		}
+		if !c.Monitor(stream, i, "C19_no_deadlock (command terminates)", in2, !pr.Timeout, "timeout: the command hung") {
+			continue
+		}
+		// a day is owned by one stage at a time: no access of two stages to the same memory without a hand-over in between
+		c.Monitor(stream, i, "no data race reported (hooks off)", in2, !strings.Contains(pr.Stderr, "DATA RACE") && pr.Exit != 66, fmt.Sprintf("exit %d; stderr %s", pr.Exit, clip(pr.Stderr)))
+		if !strings.Contains(pr.Stderr, "DATA RACE") { // a race report lists goroutines, too
+			c.Monitor(stream, i, "no panic", in2, !strings.Contains(pr.Stderr, "panic:") && !strings.Contains(pr.Stderr, "fatal error:") && !strings.Contains(pr.Stderr, "goroutine "), clip(pr.Stderr))
+		}
+		c.Monitor(stream, i, "same exit status as the unperturbed run", in2, pr.Exit == base.Exit || pr.Exit == 66,
+			fmt.Sprintf("exit %d vs %d; stderr %s", pr.Exit, base.Exit, clip(pr.Stderr)))
+	}
 	for k, pr := range jb.runs {
 		seed := jb.Seeds[k]
 		in2 := map[string]any{"argv": jb.Cmd.Args, "journal": jb.J.Text, "fault": jb.J.Fault, "race": jb.Race, "KNUT_VERIF_SEED": seed}
+		if len(jb.J.Files) > 0 {
+			in2["files"] = jb.J.Files
+		}
 		if !c.Monitor(stream, i, "C19_no_deadlock (command terminates)", in2, !pr.Timeout, "timeout: the command hung") {
 			continue
 		}
@@ -2634,6 +2685,11 @@ func runC19(c *Ctx) {
 	timed("quote_s", func() {
 		if on("quote") {
 			c.c19Quote("quote", c.N(48, 600), 3, c.N(3, 4))
+		}
+	})
+	timed("dust_s", func() {
+		if on("dust") {
+			c.c19Dust("dust", c.N(10, 120), c.N(5, 7), c.N(2, 3))
 		}
 	})
 	timed("loader_s", func() {
